@@ -214,7 +214,7 @@ def tcp_scenario(rng, sup, k, mode):
 def gen_cases(tier, seed):
     rng = random.Random(seed * 1000003 + 14)
     sup = G.registry_supported()
-    n = 200 if tier == "thorough" else 12
+    n = 600 if tier == "thorough" else 12
     cases = []
     for k in range(n):
         op, label = udp_scenario(rng, sup, k)
